@@ -197,12 +197,16 @@ package gsm7encoding
 
 //@ uninterpreted gsmvalid(Bytes) bool
 
+// IsValidGSM7String: true exactly if every rune of []rune(text) is in one of the two tables (gsmvalid names the value at
+// call sites; the clause below pins it to the tables).
 //@ func IsValidGSM7String
-//@   props C08,C03
+//@   props C08,C05,C06,C03
 //@   abstract result <==> gsmvalid(text)
+//@   ensures [C08,C05,C06 repertoire] result <==> (forall k int :: 0 <= k && k < runecount(text) ==> gsmrune(select(runes(text), k)))
 //@   ensures [C03 alloc] alloc <= 4 * len(text) + 64
 //@   loop 1
-//@     invariant -1 <= rangeindex && alloc <= entry(alloc)
+//@     invariant -1 <= rangeindex && rangeindex < runecount(text) && alloc <= entry(alloc)
+//@     invariant forall k int :: 0 <= k && k <= rangeindex ==> gsmrune(select(runes(text), k))
 //@     decreases runecount(text) - rangeindex
 
 // ---------------------------------------------------------------- stream transformers (C08 agreement, C03)
